@@ -10,20 +10,13 @@ PROPS = {}
 HOOK_COMMITS = []
 NOT_YET = {}
 
-PROPS["C01"] = dict(
-    title="float<->half conversion is exact IEEE-754 binary16, round-to-nearest-even",
-    rule=("Exhaustive enumeration of all 2^16 half and all 2^32 float bit patterns through imath_half_to_float, "
-          "imath_float_to_half, half(float).bits() and float(half); each result is compared with an arithmetic binary16 "
-          "model (ldexp/ilogb/nearbyint) and with the CPU's F16C instructions. Enumerated inputs are distinct by "
-          "construction; a case counts as non-trivial when it is a tie, has a subnormal result, is a NaN/inf, or lies "
-          "within 64 ulps of the overflow/flush thresholds (half->float: every pattern). "
-          "fp_environment_independence re-runs blocks of 2^16 inputs under 4 rounding modes x FTZ/DAZ."),
-    assumptions=["the FPU implements ldexp/ilogb/nearbyint(FE_TONEAREST) and F16C correctly",
-                 "gcc 12 on x86-64; other compilers' code generation is not observed"],
-    technique="exhaustive execution (2^32 + 2^16 inputs) with arithmetic binary16 reference model + F16C hardware oracle; ASan/UBSan on a sampled sweep",
-    level_text=("Every one of the 2^32 float and 2^16 half bit patterns is pushed through the real conversion code on every run "
-                "(quick and thorough alike) and compared with two independent oracles; for the configuration that is built "
-                "(gcc, x86-64, table path) this leaves no input unexplored, which is as strong as runtime monitoring gets."),
-    level_note="trusts glibc ldexp/ilogb/nearbyint and the CPU's F16C unit as oracles; other compilers/architectures are not executed",
-    monitors=[M("c01_half", ["c01_half.cpp", ("c01_f16c.cpp", "-mf16c")], san_scale=0.02, san_scale_thorough=0.1)],
-)
+
+# Every property lives in its own fragment lib/props.d/cNN.py defining PROP = dict(...)
+# (so that monitors can be added independently); they are loaded here.
+import glob as _glob, os as _os, importlib.util as _ilu
+for _f in sorted(_glob.glob(_os.path.join(_os.path.dirname(_os.path.abspath(__file__)), "props.d", "c[0-9][0-9].py"))):
+    _spec = _ilu.spec_from_file_location("props_" + _os.path.basename(_f)[:-3], _f)
+    _m = _ilu.module_from_spec(_spec)
+    _m.M = M
+    _spec.loader.exec_module(_m)
+    PROPS[_os.path.basename(_f)[:-3].upper()] = _m.PROP
